@@ -491,7 +491,55 @@ func genPasteCases(p *PRNG, n int, tier string) []*Case {
 		}
 		add(c)
 	}
+	for i := 0; i < n/8+20; i++ {
+		add(singleBuild("macro-registry", []byte(macroRegistryDoc(p))))
+	}
 	return cases
+}
+
+// macroRegistryDoc: macros whose bodies declare root-level entities (ENUM, TYPE, SERVER, TAG-less
+// resources), pasted zero, one or several times, next to root-level declarations that may carry the
+// same names: what a definition contributes on its own, and what each PASTE contributes
+func macroRegistryDoc(p *PRNG) string {
+	var b strings.Builder
+	b.WriteString("JSIGHT 0.3\n")
+	names := []string{"a", "b", "c_d", "e-f"}
+	nm := 1 + p.Intn(3)
+	for i := 0; i < nm; i++ {
+		b.WriteString(fmt.Sprintf("MACRO @mac%d\n(\n", i))
+		for k := 1 + p.Intn(2); k > 0; k-- {
+			n := Pick(p, names)
+			switch p.Intn(5) {
+			case 0, 1:
+				b.WriteString(fmt.Sprintf("  ENUM @%s\n  [\"x\", %d]\n", n, p.Intn(9)))
+			case 2:
+				b.WriteString(fmt.Sprintf("  TYPE @%s any\n", n))
+			case 3:
+				b.WriteString(fmt.Sprintf("  SERVER @%s\n    BaseUrl \"http://h/%s\"\n", n, n))
+			default:
+				b.WriteString(fmt.Sprintf("  GET /%s/{id}\n    200 any\n", n))
+			}
+		}
+		b.WriteString(")\n")
+	}
+	for k := p.Intn(3); k > 0; k-- {
+		n := Pick(p, names)
+		switch p.Intn(3) {
+		case 0:
+			b.WriteString(fmt.Sprintf("ENUM @%s\n[1, 2]\n", n))
+		case 1:
+			b.WriteString(fmt.Sprintf("TYPE @%s empty\n", n))
+		default:
+			b.WriteString(fmt.Sprintf("PUT /%s\n  200 any\n", n))
+		}
+	}
+	for k := p.Intn(4); k > 0; k-- {
+		b.WriteString(fmt.Sprintf("PASTE @mac%d\n", p.Intn(nm)))
+	}
+	if p.Chance(1, 2) {
+		b.WriteString("GET /z\n  200 any\n")
+	}
+	return b.String()
 }
 
 func renderWithExplicitMacros(doc []*DNode, l *Layout) string {
